@@ -3,7 +3,7 @@
    removed, escape-aware label walk) and dba5ede (the refresh parses downloads only). *)
 From Coq Require Import Permutation.
 From Sdns Require Import Common.Base Gen.C18 C18.Model C18.Spec
-  C18.Proofs_match C18.Proofs_disk C18.Proofs_reload C18.Proofs_final C18.Proofs_equiv C18.Proofs_refresh C18.Proofs_walk C18.Proofs_examples.
+  C18.Proofs_match C18.Proofs_disk C18.Proofs_reload C18.Proofs_final C18.Proofs_equiv C18.Proofs_refresh C18.Proofs_walk C18.Proofs_examples C18.Proofs_fault.
 Open Scope N_scope.
 
 (* Matching is exact on whole labels, case-insensitive, whitelist first: for every
@@ -243,3 +243,17 @@ Theorem entry_spelling_refuted :
   bl_exists (mk_bl [present sp_name] [] []) (present sp_name) = true.
 Proof. exact entry_spelling_refuted_lemma. Qed.
 Print Assumptions entry_spelling_refuted.
+
+(* saves that fail, in the interleaving system: a persist() whose step returns an error
+   uses up its snapshot and changes nothing (io_error_leaves_previous_file; the code returns
+   before lastPersisted is advanced).  Whatever fails and in whatever order, `local` is the
+   initial file or a complete snapshot — the one stamped lastPersisted — and as soon as the
+   newest snapshot has been saved it is the memory: a later successful save heals every
+   earlier failure.  (Without failures this is disk_converges.) *)
+Theorem failed_saves_heal : forall b0 l0 s,
+  fsteps (init b0 l0) s ->
+  (s_last s = 0 /\ s_local s = l0) \/
+  (exists ex wi, s_local s = Some (snap_bytes (mk_snap (s_last s) ex wi)) /\
+     (s_last s = s_version s -> Permutation ex (bm (s_mem s)) /\ Permutation wi (bwild (s_mem s)))).
+Proof. exact failed_saves_heal_lemma. Qed.
+Print Assumptions failed_saves_heal.
